@@ -11,88 +11,96 @@ open RV
 
 /-! ### 16/32/64-bit integers (the Go encoders take uintN, so the domain is `v < 2^N`) -/
 theorem short_roundtrip (v : Nat) (h : v < 2 ^ 16) : (newShort v).length = 2 ∧ short (newShort v) = .ok v := by
-  sorry
+  exact ⟨beBytes_length _ _, short_newShort v h⟩
 theorem integer_roundtrip (v : Nat) (h : v < 2 ^ 32) : (newInteger v).length = 4 ∧ integer (newInteger v) = .ok v := by
-  sorry
+  exact ⟨beBytes_length _ _, integer_newInteger v h⟩
 theorem integer64_roundtrip (v : Nat) (h : v < 2 ^ 64) : (newInteger64 v).length = 8 ∧ integer64 (newInteger64 v) = .ok v := by
-  sorry
+  exact ⟨beBytes_length _ _, integer64_newInteger64 v h⟩
 theorem short_dec_ok_iff (a : Bytes) : (∃ v, short a = .ok v) ↔ a.length = 2 := by
-  sorry
+  unfold short; split <;> simp_all
 theorem integer_dec_ok_iff (a : Bytes) : (∃ v, integer a = .ok v) ↔ a.length = 4 := by
-  sorry
+  unfold integer; split <;> simp_all
 theorem integer64_dec_ok_iff (a : Bytes) : (∃ v, integer64 a = .ok v) ↔ a.length = 8 := by
-  sorry
+  unfold integer64; split <;> simp_all
 /-- the decoders are injective on their wire format: re-encoding the decoded value gives the bytes back -/
 theorem integer_enc_dec (a : Bytes) (v : Nat) (h : integer a = .ok v) : v < 2 ^ 32 ∧ newInteger v = a := by
-  sorry
+  exact integer_enc_dec' a v h
 theorem short_enc_dec (a : Bytes) (v : Nat) (h : short a = .ok v) : v < 2 ^ 16 ∧ newShort v = a := by
-  sorry
+  exact short_enc_dec' a v h
 theorem integer64_enc_dec (a : Bytes) (v : Nat) (h : integer64 a = .ok v) : v < 2 ^ 64 ∧ newInteger64 v = a := by
-  sorry
+  exact integer64_enc_dec' a v h
 
 /-! ### text and octets -/
 theorem string_enc_ok_iff (s : Bytes) : (∃ a, newString s = .ok a) ↔ s.length ≤ 253 := by
-  sorry
+  unfold newString; split <;> simp_all <;> omega
 theorem string_roundtrip (s a : Bytes) (h : newString s = .ok a) : a.length ≤ 253 ∧ stringOf a = s := by
-  sorry
+  unfold newString at h; split at h <;> simp_all [stringOf] <;> omega
 theorem bytes_enc_ok_iff (s : Bytes) : (∃ a, newBytes s = .ok a) ↔ s.length ≤ 253 := by
-  sorry
+  unfold newBytes; split <;> simp_all <;> omega
 theorem bytes_roundtrip (s a : Bytes) (h : newBytes s = .ok a) : a.length ≤ 253 ∧ bytesOf a = s := by
-  sorry
+  unfold newBytes at h; split at h <;> simp_all [bytesOf] <;> omega
 
 /-! ### IPv4 / IPv6 addresses (equality is Go's `IP.Equal`: a 4-byte address equals its v4-mapped form) -/
 theorem ipaddr_enc_ok_iff (ip : Bytes) :
     (∃ a, newIPAddr ip = .ok a) ↔ (ip.length = 4 ∨ (ip.length = 16 ∧ ip.take 12 = v4InV6Prefix)) := by
-  sorry
+  unfold newIPAddr to4
+  by_cases h4 : ip.length = 4 <;> by_cases h16 : (ip.length = 16 ∧ ip.take 12 = v4InV6Prefix) <;> simp [h4, h16]
 theorem ipaddr_roundtrip (ip a : Bytes) (h : newIPAddr ip = .ok a) :
     a.length = 4 ∧ ∃ d, ipAddr a = .ok d ∧ ipEqual d ip = true := by
-  sorry
+  exact ipaddr_roundtrip' ip a h
 theorem ipaddr_dec_ok_iff (a : Bytes) : (∃ d, ipAddr a = .ok d) ↔ a.length = 4 := by
-  sorry
+  unfold ipAddr; split <;> simp_all
 theorem ipv6addr_enc_ok_iff (ip : Bytes) : (∃ a, newIPv6Addr ip = .ok a) ↔ (ip.length = 4 ∨ ip.length = 16) := by
-  sorry
+  unfold newIPv6Addr to16
+  by_cases h4 : ip.length = 4 <;> by_cases h16 : ip.length = 16 <;> simp [h4, h16]
 theorem ipv6addr_roundtrip (ip a : Bytes) (h : newIPv6Addr ip = .ok a) :
     a.length = 16 ∧ ∃ d, ipv6Addr a = .ok d ∧ ipEqual d ip = true := by
-  sorry
+  exact ipv6addr_roundtrip' ip a h
 theorem ipv6addr_dec_ok_iff (a : Bytes) : (∃ d, ipv6Addr a = .ok d) ↔ a.length = 16 := by
-  sorry
+  unfold ipv6Addr; split <;> simp_all
 
 /-! ### interface-id -/
 theorem ifid_enc_ok_iff (x : Bytes) : (∃ a, newIFID x = .ok a) ↔ x.length = 8 := by
-  sorry
+  unfold newIFID; split <;> simp_all
 theorem ifid_roundtrip (x a : Bytes) (h : newIFID x = .ok a) : a.length = 8 ∧ ifid a = .ok x := by
-  sorry
+  unfold newIFID at h; split at h <;> simp_all [ifid]
 theorem ifid_dec_ok_iff (a : Bytes) : (∃ d, ifid a = .ok d) ↔ a.length = 8 := by
-  sorry
+  unfold ifid; split <;> simp_all
 
 /-! ### date (seconds since 1970 as an unsigned 32-bit number) -/
 theorem date_enc_ok_iff (u : Int) : (∃ a, newDate u = .ok a) ↔ (0 ≤ u ∧ u < 2 ^ 32) := by
-  sorry
+  unfold newDate; repeat' split
+  all_goals simp_all
+  all_goals omega
 theorem date_roundtrip (u : Int) (a : Bytes) (h : newDate u = .ok a) : a.length = 4 ∧ date a = .ok u := by
-  sorry
+  exact date_roundtrip' u a h
 theorem date_dec_ok_iff (a : Bytes) : (∃ d, date a = .ok d) ↔ a.length = 4 := by
-  sorry
+  unfold date; split <;> simp_all
 
 /-! ### vendor-specific -/
 theorem vsa_enc_ok_iff (id : Nat) (v : Bytes) :
     (∃ a, newVendorSpecific id v = .ok a) ↔ (1 ≤ v.length ∧ v.length ≤ 249) := by
-  sorry
+  unfold newVendorSpecific; repeat' split
+  all_goals simp_all [-List.length_eq_zero_iff]
+  all_goals omega
 theorem vsa_roundtrip (id : Nat) (v a : Bytes) (hid : id < 2 ^ 32) (h : newVendorSpecific id v = .ok a) :
     a.length ≤ 253 ∧ vendorSpecific a = .ok (id, v) := by
-  sorry
+  exact vsa_roundtrip' id v a hid h
 theorem vsa_dec_ok_iff (a : Bytes) : (∃ r, vendorSpecific a = .ok r) ↔ 5 ≤ a.length := by
-  sorry
+  unfold vendorSpecific; split <;> simp_all <;> omega
 
 /-! ### TLV -/
 theorem tlv_enc_ok_iff (t : UInt8) (v : Bytes) :
     (∃ a, newTLV t v = .ok a) ↔ (1 ≤ v.length ∧ v.length ≤ 253) := by
-  sorry
+  unfold newTLV; split
+  all_goals simp_all [-List.length_eq_zero_iff]
+  all_goals omega
 theorem tlv_roundtrip (t : UInt8) (v a : Bytes) (h : newTLV t v = .ok a) :
     a.length ≤ 255 ∧ tlv a = .ok (t, v) := by
-  sorry
+  exact tlv_roundtrip' t v a h
 theorem tlv_dec_ok_iff (a : Bytes) :
     (∃ r, tlv a = .ok r) ↔ (3 ≤ a.length ∧ a.length ≤ 255 ∧ (a.getD 1 0).toNat = a.length) := by
-  sorry
+  unfold tlv; split <;> simp_all <;> omega
 
 /-! ### IPv6 prefix -/
 
@@ -104,36 +112,36 @@ def maskIP (ip : Bytes) (n : Nat) : Bytes :=
     else clearFrom (ip.getD i 0) (n - i * 8)
 
 theorem prefix_nil_refused : newIPv6Prefix none = .err := by
-  sorry
+  rfl
 /-- representable ⇔ a 16-byte address with a 16-byte ones-then-zeros mask -/
 theorem prefix_enc_ok_iff (ip mask : Bytes) :
     (∃ a, newIPv6Prefix (some (ip, mask)) = .ok a) ↔
       (ip.length = 16 ∧ mask.length = 16 ∧ (maskOnes mask).isSome = true) := by
-  sorry
+  exact prefix_enc_ok_iff' ip mask
 /-- round trip: the address comes back with its host bits cleared, under the same mask; the emitted
     value is at most 18 bytes -/
 theorem prefix_roundtrip (ip mask a : Bytes) (n : Nat) (hn : maskOnes mask = some n)
     (h : newIPv6Prefix (some (ip, mask)) = .ok a) :
     a.length ≤ 18 ∧ ipv6Prefix a = .ok (maskIP ip n, mask) := by
-  sorry
+  exact prefix_roundtrip' ip mask a n hn h
 /-- the decoder accepts exactly: 2..18 bytes, prefix length ≤ 128, every bit beyond the prefix
     length zero (the reserved first octet is not inspected) -/
 theorem prefix_dec_ok_iff (a : Bytes) :
     (∃ r, ipv6Prefix a = .ok r) ↔
       (2 ≤ a.length ∧ a.length ≤ 18 ∧ (a.getD 1 0).toNat ≤ 128 ∧
        hostBitsZero (a.drop 2 ++ zeros (16 - (a.length - 2))) (a.getD 1 0).toNat = true) := by
-  sorry
+  exact prefix_dec_ok_iff' a
 
 /-! ### no decoder or encoder panics -/
 theorem never_faults (a : Bytes) :
     short a ≠ .fault ∧ integer a ≠ .fault ∧ integer64 a ≠ .fault ∧ ipAddr a ≠ .fault ∧ ipv6Addr a ≠ .fault ∧
     ifid a ≠ .fault ∧ date a ≠ .fault ∧ vendorSpecific a ≠ .fault ∧ tlv a ≠ .fault ∧ ipv6Prefix a ≠ .fault := by
-  sorry
+  exact never_faults' a
 
 /-! Non-vacuity (tests) -/
 example : newDate 1700000000 = .ok [0x65, 0x53, 0xf1, 0x00] := by
-  sorry
+  decide
 example : ∃ a, newIPv6Prefix (some (List.replicate 16 0xff, cidrMask 61)) = .ok a := by
-  sorry
+  exact (prefix_enc_ok_iff _ _).2 ⟨by decide, by decide, by decide⟩
 
 end RV.C10
